@@ -237,31 +237,52 @@ public:
         a->value = b->value;
         b->value = tmp;
       }
-      inline static void sort(Item* left, Item* right)
-      {
-        Item* ptr0, * ptr1, * ptr2;
-        ptr0 = ptr1 = ptr2 = left;
-        const T& pivot = left->value;
-        do
+      inline static void sort(Item* left, Item* right, usize count)
+      { // count = number of items in [left, right]; the smaller part is sorted recursively, the larger one in the loop,
+        // so that the recursion is never deeper than log2(count) (a descending list used to need one level per item)
+        for(;;)
         {
-          ptr2 = ptr2->next;
-          if(ptr2->value < pivot)
+          Item* ptr0, * ptr1, * ptr2;
+          ptr0 = ptr1 = ptr2 = left;
+          const T& pivot = left->value;
+          usize lessCount = 0;
+          do
           {
-            ptr0 = ptr1;
+            ptr2 = ptr2->next;
+            if(ptr2->value < pivot)
+            {
+              ptr0 = ptr1;
+              ptr1 = ptr1->next;
+              swap(ptr1, ptr2);
+              ++lessCount;
+            }
+          } while(ptr2 != right);
+          swap(left, ptr1);
+          if(ptr1 != right)
             ptr1 = ptr1->next;
-            swap(ptr1, ptr2);
+          usize greaterCount = count - 1 - lessCount;
+          if(lessCount < greaterCount)
+          {
+            if(lessCount > 1)
+              sort(left, ptr0, lessCount);
+            if(greaterCount <= 1)
+              return;
+            left = ptr1;
+            count = greaterCount;
           }
-        } while(ptr2 != right);
-        swap(left, ptr1);
-        if(ptr1 != right)
-          ptr1 = ptr1->next;
-        if(left != ptr0)
-          sort(left, ptr0);
-        if(ptr1 != right)
-          sort(ptr1, right);
+          else
+          {
+            if(greaterCount > 1)
+              sort(ptr1, right, greaterCount);
+            if(lessCount <= 1)
+              return;
+            right = ptr0;
+            count = lessCount;
+          }
+        }
       }
     };
-    QuickSort::sort(_begin.item, endItem.prev);
+    QuickSort::sort(_begin.item, endItem.prev, _size);
   }
 
 private:
